@@ -148,9 +148,18 @@ def gen_case(rng, tier, est=None, seeded=None):
         elif r < 0.35:
             ops.append({"op": "construct", "fam": rng.choice(["isv", "jfa"]),
                         "rs": rng.randint(0, 1000)})
-        elif r < 0.47:
+        elif r < 0.42:
             ops.append({"op": "unrelated_fit", "what": rng.choice(["kmeans", "ivector", "isv"]),
                         "seed": rng.randint(0, 1000)})
+        elif r < 0.50:
+            # the same estimator class and configuration trained on OTHER data of the same shape,
+            # dtype, labels and (for Dask) chunk structure: anything remembered per shape, per
+            # configuration or per object identity would leak into the next fit of the target
+            sb = {"op": "sibling_fit", "backend": rng.choice(backends),
+                  "k": rng.choice([0.7, 1.01, 1.5]), "shift": rng.choice([0.0, 0.3])}
+            if sb["backend"] != "np":
+                sb["sched"] = gen_sched(rng)
+            ops.append(sb)
         else:
             pres = rng.choice(["identity", "identity", "perm", "relabel" if labelled else "perm",
                                "both" if labelled else "perm"])
@@ -396,6 +405,23 @@ def run_case(case, replay=None):
                     else:
                         JFAMachine(1, 1, ubm=ubm, random_state=o["rs"])
                     rec.faults["F6_construct_reseeds"] = rec.faults.get("F6_construct_reseeds", 0) + 1
+                    events_between += 1
+                elif name == "sibling_fit":
+                    sib = dict(case)
+                    if "X" in case:
+                        sib["X"] = L(A(case["X"]) * o["k"] + o["shift"])
+                    if "stats" in case:
+                        sib["stats"] = [dict(st, sum_px=L(A(st["sum_px"]) * o["k"]),
+                                             n=L(A(st["n"]) * (2.0 - o["k"] if o["k"] < 2 else 1.0)))
+                                        for st in case["stats"]]
+                    sib["reuse_obj"] = False
+                    try:
+                        _fit(sib, dict(o, pres="identity"), rec, f"op{i}")
+                    except HarnessError:
+                        raise
+                    except Exception:
+                        pass  # the sibling's own success is irrelevant
+                    rec.faults["F6_sibling_fit"] = rec.faults.get("F6_sibling_fit", 0) + 1
                     events_between += 1
                 elif name == "unrelated_fit":
                     _unrelated(o)
